@@ -71,11 +71,26 @@ fn dep_is_asset(d: &Dependency) -> bool {
   d.imports.iter().all(|i| i.attributes.has_asset() || i.kind.is_source_phase())
 }
 
-pub fn spec_class(spec: &str) -> u64 {
+/// parse_load_specifier_kind for stage B1 (no npm resolver): 0 = loaded through the loader, 1 = node
+/// built-in, 2 = malformed jsr:/npm: specifier, 3 = a valid jsr: specifier when jsr specifiers are passed
+/// through (marked external at once). Valid jsr: specifiers without passthrough belong to the registry
+/// stage and are not generated in B1 worlds.
+pub fn spec_class(spec: &str, passthrough_jsr: bool) -> u64 {
   let scheme = spec.split(':').next().unwrap_or("");
   match scheme {
     "node" => 1,
-    "jsr" | "npm" => 2, // stage B1: only malformed jsr/npm specifiers are generated
+    "npm" => match ModuleSpecifier::parse(spec).ok().and_then(|u| deno_semver::npm::NpmPackageReqReference::from_specifier(&u).ok()) {
+      Some(_) => 0,
+      None => 2,
+    },
+    "jsr" => {
+      let valid = ModuleSpecifier::parse(spec)
+        .ok()
+        .and_then(|u| deno_semver::jsr::JsrPackageReqReference::from_specifier(&u).ok())
+        .map(|r| matches!(r.req().version_req.inner(), deno_semver::RangeSetOrTag::RangeSet(_)))
+        .unwrap_or(false);
+      if valid && passthrough_jsr { 3 } else { 2 }
+    }
     _ => 0,
   }
 }
@@ -167,8 +182,8 @@ pub fn abs_world_full(
   let classes = Sx::L(
     it.specs
       .iter()
-      .filter(|(s, _)| spec_class(s) != 0)
-      .map(|(s, id)| Sx::atoms([*id, spec_class(s)]))
+      .filter(|(s, _)| spec_class(s, world.passthrough_jsr) != 0)
+      .map(|(s, id)| Sx::atoms([*id, spec_class(s, world.passthrough_jsr)]))
       .collect(),
   );
   let files = Sx::atoms(it.specs.iter().filter(|(s, _)| s.starts_with("file:")).map(|(_, id)| *id));
